@@ -850,6 +850,14 @@ class ContentElement(TTMLElement):
           StyleElement.from_xml(self, child_xml_element)
           continue
 
+        if self.time_container.is_seq() and self.implicit_end is None:
+          # the previous child of the sequence never ends, so this one never begins: it is parsed only so that
+          # errors in it are reported
+          self.implicit_end = self.desired_begin
+          ContentElement.from_xml(self, child_xml_element)
+          self.implicit_end = None
+          continue
+
         child_element = ContentElement.from_xml(self, child_xml_element)
 
         if child_element is not None:
